@@ -332,9 +332,35 @@ func c18Usage(c *core.Ctx, dir string) {
 		{[]string{"--bload", "missing.bcb"}, "", 1, "missing bytecode file"},
 		{[]string{"--bload", "ok.bcl"}, "", 1, "source given to --bload"},
 		{[]string{"--bdump=/nonexistent-dir/x.bcb", "ok.bcl"}, "", 1, "dump file cannot be created"},
+		{[]string{"--bdump=/dev/full", "ok.bcl"}, "", 1, "dump file cannot be written (device full)"},
 		{[]string{"ok.bcl"}, "", 0, "plain run"},
 		{[]string{"--", "ok.bcl"}, "", 0, "file after --"},
 		{[]string{"-h"}, "", 0, "help"},
+	}
+	// the same flag given twice, with and without a file name, in either order
+	for k, pair := range [][2][]string{
+		{{"--bdump=r1.bcb", "--bdump", "ok.bcl"}, {"--bdump", "--bdump=r2.bcb", "ok.bcl"}},
+		{{"ok.bcl", "--bdump=r3.bcb", "--bdump"}, {"--bdump", "ok.bcl", "--bdump=r4.bcb"}},
+	} {
+		a, b := runCLI(dir, "", pair[0]...), runCLI(dir, "", pair[1]...)
+		c.Eval(2)
+		_, e1 := os.Stat(filepath.Join(dir, fmt.Sprintf("r%d.bcb", 2*k+1)))
+		_, e2 := os.Stat(filepath.Join(dir, fmt.Sprintf("r%d.bcb", 2*k+2)))
+		if a.exit != b.exit || a.stdout != b.stdout || a.stderr != b.stderr || (e1 == nil) != (e2 == nil) || e1 != nil {
+			c.Violation("cli-flag-order:repeated-bdump", fmt.Sprintf("bcl %q and bcl %q differ: exit %d/%d, dump written %v/%v", pair[0], pair[1], a.exit, b.exit, e1 == nil, e2 == nil),
+				map[string]any{"stdout_a": a.stdout, "stdout_b": b.stdout, "stderr_a": a.stderr, "stderr_b": b.stderr})
+		} else {
+			c.Count("usage_and_io_error_cases", 1)
+		}
+	}
+	if pre := runCLI(dir, "", "--bdump=l.bcb", "ok.bcl"); pre.exit == 0 {
+		a, b := runCLI(dir, "", "--bload=l.bcb", "--bload"), runCLI(dir, "", "--bload", "--bload=l.bcb")
+		c.Eval(2)
+		if a.exit != b.exit || a.stdout != b.stdout || a.stderr != b.stderr || a.exit != 0 {
+			c.Violation("cli-flag-order:repeated-bload", fmt.Sprintf("'--bload=F --bload' and '--bload --bload=F' differ: exit %d/%d stderr %q / %q", a.exit, b.exit, a.stderr, b.stderr), nil)
+		} else {
+			c.Count("usage_and_io_error_cases", 1)
+		}
 	}
 	for _, u := range cases {
 		got := runCLI(dir, u.stdin, u.args...)
